@@ -306,6 +306,16 @@ func (pf *ParamsFamily) requestParts(e *FuncEnc, fn *ssa.Function, st *state) (r
 }
 
 func (pf *ParamsFamily) supplied(e *FuncEnc, p RefParam, u, hdr string, st *state) refValues {
+	key := "supplied:" + p.In + ":" + p.Name
+	if v, ok := e.Cache[key]; ok {
+		return v.(refValues)
+	}
+	v := pf.suppliedBuild(e, p, u, hdr, st)
+	e.Cache[key] = v
+	return v
+}
+
+func (pf *ParamsFamily) suppliedBuild(e *FuncEnc, p RefParam, u, hdr string, st *state) refValues {
 	strHeap := e.heapName(st, e.D.heapKey(types.Typ[types.String]), e.D.heapSort(types.Typ[types.String]))
 	var sl string
 	var present string
@@ -437,6 +447,21 @@ func (pf *ParamsFamily) retObligations(e *FuncEnc, fn *ssa.Function, op *RefOp, 
 	_, u, path, hdr, _ := pf.requestParts(e, fn, st)
 	isErr := not(eq(sx("if_tag", err), "0"))
 	noErr := eq(sx("if_tag", err), "0")
+	// syntactic shortcut: `return params, nil` / `return zero, <constructed error>`
+	if e.curRet != nil && len(e.curRet.Results) == 2 {
+		switch rv := e.curRet.Results[1].(type) {
+		case *ssa.Const:
+			if rv.Value == nil {
+				isErr, noErr = "false", "true"
+			}
+		case *ssa.MakeInterface:
+			isErr, noErr = "true", "false"
+		case *ssa.Call:
+			if g := rv.Call.StaticCallee(); g != nil && (g.String() == "fmt.Errorf" || g.String() == "errors.New") {
+				isErr, noErr = "true", "false"
+			}
+		}
+	}
 	e.D.UF("errfmt", []string{"Iface"}, "Str")
 
 	var failQH []string
@@ -472,7 +497,7 @@ func (pf *ParamsFamily) retObligations(e *FuncEnc, fn *ssa.Function, op *RefOp, 
 				setCond = eq(isSet, vs.present)
 			}
 			elemT := tt.Underlying().(*types.Slice).Elem()
-			eh := e.heapName(e.cur, e.D.heapKey(elemT), e.D.heapSort(elemT))
+			eh := constOf(e, "ref_heap", e.D.heapSort(elemT), e.heapName(e.cur, e.D.heapKey(elemT), e.D.heapSort(elemT)))
 			tb := constOf(e, "ref_tb_"+mangle(p.Name), "Int", sx("sl_base", target))
 			to := constOf(e, "ref_to_"+mangle(p.Name), "Int", sx("sl_off", target))
 			cell := sx("select", eh, sx("elem", tb, "qk"))
@@ -489,7 +514,12 @@ func (pf *ParamsFamily) retObligations(e *FuncEnc, fn *ssa.Function, op *RefOp, 
 				valueOK = implies(vs.present, eq(fv, want))
 			}
 		}
-		fail = e.define("ref_fail_"+mangle(p.In+"_"+p.Name), "Bool", fail)
+		if c, ok := e.Cache["fail:"+p.In+":"+p.Name]; ok {
+			fail = c.(string)
+		} else {
+			fail = e.define("ref_fail_"+mangle(p.In+"_"+p.Name), "Bool", fail)
+			e.Cache["fail:"+p.In+":"+p.Name] = fail
+		}
 		failQH = append(failQH, fail)
 		mentionQH = append(mentionQH, and(fail, pf.errMentions(e, err, p)))
 		out = append(out, NamedFormula{Name: "ensures#value/" + p.In + ":" + p.Name, Props: []string{"C04", "C09"}, Formula: implies(noErr, valueOK)})
@@ -498,27 +528,7 @@ func (pf *ParamsFamily) retObligations(e *FuncEnc, fn *ssa.Function, op *RefOp, 
 
 	// path parameters (C05): under "the reference dispatches this request here"
 	var failPath, mentionPath []string
-	R := path
-	underBase := "true"
-	if B := pf.Em.Ref.NormBase(); B != "" {
-		R = sx("ssub", path, itoa(int64(len(B))), sx("slen", path))
-		underBase = hasPrefixLit(path, B)
-	}
-	dconds := []string{underBase}
-	cur := R
-	segTerm := map[int]string{}
-	for k, s := range op.Segs {
-		dconds = append(dconds, sx("startsSlash", cur))
-		first := sx("sfirst", cur)
-		if !s.IsVar {
-			dconds = append(dconds, eq(first, e.D.Lit("/"+s.Lit)))
-		} else {
-			segTerm[k] = e.define(fmt.Sprintf("ref_seg%d", k), "Str", sx("ssub", first, "1", sx("slen", first)))
-		}
-		cur = sx("srest", cur)
-	}
-	dconds = append(dconds, eq(cur, "str_empty"))
-	dispatched := e.define("ref_dispatched", "Bool", and(dconds...))
+	dispatched, segTerm := pf.dispatchedTerm(e, op, path)
 	for _, b := range binds {
 		p := b.P
 		if p.In != "path" || b.SegIndex < 0 {
@@ -558,6 +568,60 @@ func constOf(e *FuncEnc, prefix, sort, term string) string {
 	c := e.newSym(prefix, sort)
 	e.emit("(assert (= " + c + " " + term + "))")
 	return c
+}
+
+// dispatchedTerm: the reference dispatches the request to this operation
+// (template segments in absolute positions of r.URL.Path); cached per function.
+func (pf *ParamsFamily) dispatchedTerm(e *FuncEnc, op *RefOp, path string) (string, map[int]string) {
+	if c, ok := e.Cache["dispatched"]; ok {
+		return c.(string), e.Cache["segterms"].(map[int]string)
+	}
+	underBase := "true"
+	if B := pf.Em.Ref.NormBase(); B != "" {
+		underBase = hasPrefixLit(path, B)
+	}
+	dconds := []string{underBase}
+	segTerm := map[int]string{}
+	pos := itoa(int64(len(pf.Em.Ref.NormBase()))) // absolute position in r.URL.Path
+	plen := sx("slen", path)
+	for k, s := range op.Segs {
+		// the segment starts with '/' at pos
+		dconds = append(dconds, sx("<", pos, plen), eq(sx("sat", path, pos), "47"))
+		end := e.define(fmt.Sprintf("ref_end%d", k), "Int", sx("segat", path, pos))
+		e.assume("true", segatIndexLemma(path, pos))
+		if !s.IsVar {
+			lit := s.Lit
+			dconds = append(dconds, eq(sx("-", end, pos), itoa(int64(len(lit)+1))))
+			for j := 0; j < len(lit); j++ {
+				dconds = append(dconds, eq(sx("sat", path, sx("+", pos, itoa(int64(j+1)))), itoa(int64(lit[j]))))
+			}
+		} else {
+			segTerm[k] = e.define(fmt.Sprintf("ref_seg%d", k), "Str", sx("ssub", path, sx("+", pos, "1"), end))
+		}
+		pos = end
+	}
+	dconds = append(dconds, eq(pos, plen))
+	d := e.define("ref_dispatched", "Bool", and(dconds...))
+	e.Cache["dispatched"] = d
+	e.Cache["segterms"] = segTerm
+	return d, segTerm
+}
+
+// segatIndexLemma: segat(s,i) in terms of strings.Index on the rest of the
+// string (proved once per run from the axioms: obligation lemma#segat-index).
+func segatIndexLemma(s, i string) string {
+	t := sx("ssub", s, sx("+", i, "1"), sx("slen", s))
+	return implies(and(sx("<=", "0", i), sx("<", i, sx("slen", s))),
+		eq(sx("segat", s, i), ite(eq(sx("sidx", t, "47"), "(- 1)"), sx("slen", s), sx("+", i, "1", sx("sidx", t, "47")))))
+}
+
+// SegatLemmaScript: the proof obligation behind segatIndexLemma.
+func SegatLemmaScript() string {
+	return NewDecls().String() + `(declare-const s Str)
+(declare-const i Int)
+(assert (not ` + segatIndexLemma("s", "i") + `))
+(check-sat)
+`
 }
 
 func boolLit(b bool) string {
@@ -674,7 +738,7 @@ func (pf *ParamsFamily) loopInvariants(e *FuncEnc, fn *ssa.Function, op *RefOp, 
 	strT := types.Typ[types.String]
 	strHeap := e.heapName(e.entry, e.D.heapKey(strT), e.D.heapSort(strT))
 	elemT := dst.Type().Underlying().(*types.Slice).Elem()
-	eh := e.heapName(env.st, e.D.heapKey(elemT), e.D.heapSort(elemT))
+	eh := constOf(e, "inv_heap", e.D.heapSort(elemT), e.heapName(env.st, e.D.heapKey(elemT), e.D.heapSort(elemT)))
 	key := fmt.Sprintf("loop%d", ord)
 	if e.loopConsts == nil {
 		e.loopConsts = map[string][4]string{}
